@@ -62,7 +62,8 @@ def r1_invalidate(run, w):
         if bad is not None else None
     run.ob(R1, fn.qualname, "mutation -> invalidate_records",
            "every write is followed by invalidation before the action returns", bad is None,
-           witness=wit, fi=fn.fi, node=cfg.nodes[bad].stmt if bad is not None else None)
+           witness=wit, fi=fn.fi, node=cfg.nodes[bad].stmt if bad is not None else None,
+           missing=not inv)
   # add_records / load_table do end in invalidation
   ar = w.fn("engine.Engine.add_records")
   inv = nodes_calling_E(ar, E.is_engine_call("invalidate_records")) | \
@@ -78,11 +79,12 @@ def r1_invalidate(run, w):
         not any(k.arg == "col_ids" for k in c.keywords)
   ok_args = any(whole_rows(n, c) for (n, c, nm) in calls_E(ar) if nm == "self.invalidate_records")
   run.ob(R1, ar.qualname, "self.invalidate_records(table_id, row_ids)",
-         "adding records invalidates every column of the new rows", ok and ok_args, fi=ar.fi)
+         "adding records invalidates every column of the new rows", ok and ok_args, fi=ar.fi,
+         missing=not inv)
   lt = w.fn("engine.Engine.load_table")
   adds = nodes_calling_E(lt, lambda c, nm, f: nm == "self.add_records")
   run.ob(R1, lt.qualname, "self.add_records(...)", "loading a table goes through add_records",
-         bool(adds) and lt.cfg.dominated_by(lt.cfg.exit.id, adds), fi=lt.fi)
+         bool(adds) and lt.cfg.dominated_by(lt.cfg.exit.id, adds), fi=lt.fi, missing=not adds)
   # BulkUpdateRecord invalidates exactly the rows and columns it wrote
   bu = w.fn("docactions.DocActions.BulkUpdateRecord")
   bflow = Flow(bu)
@@ -164,7 +166,7 @@ def r2_removal_siblings(run, w):
     good = [(rows, rn) for (_, rows, rn, conds) in loops if rows is not None and not conds]
     run.ob(R2, fn.qualname, "for column in table.all_columns.values(): column.unset(<gone row>)",
            "every column (lookup maps and reference columns included) forgets the rows that "
-           "disappear, unconditionally", bool(good), fi=fn.fi)
+           "disappear, unconditionally", bool(good), fi=fn.fi, missing=not loops)
     inv_ok = False
     for (n, c, nm) in calls_E(fn):
       if E.is_engine_call("invalidate_records")(c, nm, fn) and nargs(c) == 2:
@@ -172,7 +174,8 @@ def r2_removal_siblings(run, w):
         if a1 is not None and any(flow.same_value(a1, n.id, rows, rn) for (rows, rn) in good):
           inv_ok = True
     run.ob(R2, fn.qualname, "invalidate_records(table_id, <gone rows>)",
-           "everything depending on the vanished rows is recomputed", inv_ok, fi=fn.fi)
+           "everything depending on the vanished rows is recomputed", inv_ok, fi=fn.fi,
+           missing=not good)
   # the gone rows of ReplaceTableData are the rows the table had before
   fn = w.fn("docactions.DocActions.ReplaceTableData")
   flow = Flow(fn)
@@ -204,9 +207,59 @@ READ_EXCEPTIONS = {
 }
 
 
+def _node_param_of_column(w, fi, node_param, col_param):
+  """fi takes the column and its node as two parameters: at every call site of fi the argument for
+  `node_param` is <the argument for col_param>.node (written in place, or a local / captured
+  variable assigned from it). True / False / None (cannot be followed)."""
+  ps = fi.params()
+  if fi.cls is not None and fi.parent is None:
+    ps = ps[1:]
+  if node_param not in ps or col_param not in ps:
+    return None
+  sites = []
+  for g in w.repo.all_functions():
+    if g.module is not fi.module or g.qualname == fi.qualname:
+      continue
+    for s_ in g.node.body:
+      if isinstance(s_, (ast.FunctionDef, ast.AsyncFunctionDef, ast.ClassDef)):
+        continue      # a nested def is a function of its own
+      for x in walk_no_nested(s_, into_lambda=True):
+        if isinstance(x, ast.Call) and \
+            ((isinstance(x.func, ast.Name) and x.func.id == fi.name) or
+             (isinstance(x.func, ast.Attribute) and x.func.attr == fi.name)):
+          sites.append((g, x))
+  if not sites or fi.name in {x.id for g in w.repo.all_functions() if g.module is fi.module
+                              for x in ast.walk(g.node) if isinstance(x, ast.Name)
+                              and not any(x is c.func for (_, c) in sites)}:
+    return None      # never called directly, or also passed around as a value
+  for (g, call) in sites:
+    bound = args_by_params(call, ps)
+    if bound is None or node_param not in bound or col_param not in bound:
+      return None
+    gfn = w.fn_of(g)
+    gflow = Flow(gfn)
+    ws = gflow.where(call)
+    if not ws:
+      return None
+    colx = gflow.itext(bound[col_param], ws[0])
+    nodex = gflow.itext(bound[node_param], ws[0])
+    if nodex == colx + ".node":
+      continue
+    ok = False
+    if isinstance(bound[node_param], ast.Name):
+      owner = g
+      while owner is not None and not ok:
+        ok = any(text(v) == colx + ".node" for v in E.local_defs(owner.node, bound[node_param].id))
+        owner = owner.parent
+    if not ok:
+      return None
+  return True
+
+
 def r3_read_requires_dependency(run, w):
   R3 = run.rule("C05-R3", "every formula-visible cell read (get_cell_value) is dominated by "
                 "_use_node for that column in the same function", floor=3)
+  accessors, unfollowed = [], []
   for fi in w.repo.all_functions():
     if not analysed_separately(w, fi):
       continue
@@ -226,41 +279,61 @@ def r3_read_requires_dependency(run, w):
         continue
       colvar = text(c.func.value)
       flow = Flow(fn)
-      uses = set()
+      uses, unknown = set(), set()
       for (m, c2, nm) in calls_E(fn):
-        a0n = argn(w, fn, c2, 0) if endswith(nm, "_use_node") else None
-        if a0n is not None:
-          a0 = flow.itext(a0n, m.id)
-          if a0 == colvar + ".node" or \
-              a0 == flow.itext(c.func.value, n.id) + ".node":
-            uses.add(m.id)
-          elif isinstance(a0n, ast.Name):
-            # node = col_obj.node captured in an enclosing scope
-            owner = fi.parent
-            while owner is not None:
-              if any(text(v) == colvar + ".node"
-                     for v in E.local_defs(owner.node, a0n.id)):
-                uses.add(m.id)
-              owner = owner.parent
+        last = (nm or "").split(".")[-1]
+        if not (endswith(nm, "_use_node") or last in ("use_node", "_use_node")):
+          continue
+        a0n = argn(w, fn, c2, 0)
+        if a0n is None:
+          unknown.add(m.id)
+          continue
+        a0 = flow.itext(a0n, m.id)
+        if a0 == colvar + ".node" or \
+            a0 == flow.itext(c.func.value, n.id) + ".node":
+          uses.add(m.id)
+        elif isinstance(a0n, ast.Name):
+          # node = col_obj.node captured in an enclosing scope
+          owner = fi.parent
+          found_def = False
+          while owner is not None:
+            ds = E.local_defs(owner.node, a0n.id)
+            found_def = found_def or bool(ds)
+            if any(text(v) == colvar + ".node" for v in ds):
+              uses.add(m.id)
+            owner = owner.parent
+          if m.id not in uses and not found_def and not flow.values_at(a0n.id, m.id):
+            # a parameter / free name: look at what the callers pass for it and for the column
+            if _node_param_of_column(w, fi, a0n.id, colvar) is True:
+              uses.add(m.id)
+            else:
+              unknown.add(m.id)    # which node it is cannot be seen
+        # the row read, for the accessor check below
+        row = argn(w, fn, c, 0)
+        rps = fi.params()
+        if row is not None and rps and m.id in uses | unknown and \
+            flow.itext(row, n.id, stop=tuple(rps)) in ["%s._row_id" % p_ for p_ in rps]:
+          accessors.append((fn, flow, m, c2, flow.itext(row, n.id, stop=tuple(rps)).split(".")[0]))
       ok = bool(uses) and cfg.dominated_by(n.id, uses)
+      if not ok and (uses | unknown) and cfg.dominated_by(n.id, uses | unknown):
+        unfollowed.append("%s: `%s` is preceded by a _use_node call whose node argument cannot "
+                          "be related to the column read" % (fi.qualname, short(c, 60)))
+        continue
       wit = None
       if not ok and uses:
         wit = cfg.describe_path(cfg.path(cfg.entry.id, {n.id}, removed=uses))
       run.ob(R3, fi.qualname, short(c), "cell read is preceded on every path by _use_node(%s.node"
-             ", ...)" % colvar, ok, witness=wit, fi=fi, node=c)
+             ", ...)" % colvar, ok, witness=wit, fi=fi, node=c, missing=not uses)
   # the accessor passes the row being read, so only that row is brought up to date / depended on
-  fn = w.fn("table.Table._add_field_to_record_classes.record_field")
-  flow = Flow(fn)
-  rec = fn.fi.params()[0]
-  ok = False
-  for (n, c, nm) in calls_E(fn):
-    if endswith(nm, "_use_node") and nargs(c) == 3:
-      a1, a2 = argn(w, fn, c, 1), argn(w, fn, c, 2)
-      ok = a1 is not None and a2 is not None and \
-          flow.itext(a1, n.id, stop=(rec,)) == rec + "._source_relation" and \
-          flow.itext(a2, n.id, stop=(rec,)) in ("(%s._row_id,)" % rec, "[%s._row_id]" % rec)
-  run.ob(R3, fn.qualname, "use_node(node, rec._source_relation, (rec._row_id,))",
-         "the dependency is recorded with the record's own relation and row", ok, fi=fn.fi)
+  if not accessors:
+    unfollowed.append("no per-record accessor (get_cell_value(<rec>._row_id) after _use_node) found")
+  for (fn, flow, m, c2, rec) in accessors:
+    a1, a2 = argn(w, fn, c2, 1), argn(w, fn, c2, 2)
+    ok = nargs(c2) == 3 and a1 is not None and a2 is not None and \
+        flow.itext(a1, m.id, stop=(rec,)) == rec + "._source_relation" and \
+        flow.itext(a2, m.id, stop=(rec,)) in ("(%s._row_id,)" % rec, "[%s._row_id]" % rec)
+    run.ob(R3, fn.qualname, "use_node(node, rec._source_relation, (rec._row_id,))",
+           "the dependency is recorded with the record's own relation and row", ok, fi=fn.fi)
   # _use_node: adds the edge (current node -> used node) for every formula node that is not
   # peeking; the only other reason to skip it is that the very same edge was added before
   un = w.fn("engine.Engine._use_node")
@@ -293,6 +366,8 @@ def r3_read_requires_dependency(run, w):
   run.ob(R3, un.qualname, "edge = (self._current_node, node, relation); dep_graph.add_edge(*edge)",
          "the edge says: the node being computed depends on the node read, via the relation in use",
          ok and shape, fi=un.fi)
+  if unfollowed:
+    raise AnalysisError(unfollowed[0])
 
 
 def _all_rows_atom(flow, p):
@@ -691,7 +766,8 @@ def r7_column_lifecycle(run, w):
   inv = nodes_calling_E(cc, lambda c, nm, f: endswith(nm, "_engine.invalidate_column"))
   run.ob(R7, cc.qualname, "col_obj = create_column(...); invalidate_column(col_obj)",
          "a newly created column object starts fully dirty",
-         bool(creates) and all(cfg.postdominated_by(c, inv) for c in creates), fi=cc.fi)
+         bool(creates) and all(cfg.postdominated_by(c, inv) for c in creates), fi=cc.fi,
+         missing=not inv or not creates)
 
 
 D = "sandbox/grist/docactions.py"
